@@ -255,9 +255,9 @@ def ops_for(d, T, tier, small=False):
                     ops.append((r, [ax, mask, keep]))
         ops.append(("sort", [ax, True, False]))
         ops.append(("argsort", [ax, False, True]))
+        ops.append(("argsort", [ax, True, False]))      # the unstable argsort is a different routine (std::sort)
         if not small:
             ops.append(("sort", [ax, False, True]))
-            ops.append(("argsort", [ax, True, False]))
         for nn in ((1, 2, 3) if not small else (2,)):
             for repl in (False, True):
                 ops.append(("combinations", [nn, repl, ax]))
